@@ -6,7 +6,7 @@
     [ostep]s (commitlib.steps_of), the abstracted post-state, and for every injected run the
     observed outcome class.  Model side: Model/Commit.v run on the same pre-state. *)
 From Coq Require Import List NArith Ascii Bool.
-From Rocfl Require Import Base.Bytes Model.FsOps Model.FsTree Model.Commit Model.KnownC04.
+From Rocfl Require Import Base.Bytes Model.FsOps Model.FsTree Model.Commit.
 Import ListNotations.
 Open Scope N_scope.
 
@@ -163,15 +163,6 @@ Definition predict_obs (p : prog) (c : cfg) (t : tree) (obs : list ostep) (js : 
                       | None => [base]
                       end
          end) js.
-
-(** known-finding classes at observed steps *)
-Definition known_obs (p : prog) (c : cfg) (t : tree) (obs : list ostep) (is : list nat) : list N :=
-  let mlog := model_log p c t in
-  let al := align mlog obs in
-  map (fun i => match nth i al None with
-                | Some k => known_class_of (prog_of p c) c t k
-                | None => 0
-                end) is.
 
 (** what happens after a faulted run that left the old object: the retried command and, in a second copy,
     reset_all.  ((class of the main object after the retry, result of the retry),
